@@ -83,6 +83,78 @@ def scan(repo):
     return logs, panics
 
 
+# ---- numeric literals of the modelled functions -------------------------------------------------
+# Private constants and bare numbers (ITERATION_LIMIT = 4, the 5_000_000 / 5 radius, `> 50`, `1..=64`,
+# nonce lengths, MIN_PAYLOAD_SIZE's summands, the 100 ms poll timeout, ...) are behaviour that API
+# reflection cannot see. Every integer literal of the modelled files is listed per enclosing fn
+# (module level: fn "-"), in source order; Model/SiteMap.v holds the reviewed copy the model was
+# written against and `literals_reviewed` compares the two on every run.
+LIT_FILES = ["src/request.rs", "src/message.rs", "src/merkle.rs", "src/key/online.rs", "src/key/longterm.rs",
+             "src/responder.rs", "src/server.rs", "src/grease.rs", "src/sign.rs", "src/kms/envelope.rs", "src/kms/mod.rs",
+             "src/config/mod.rs", "src/config/file.rs", "src/config/environment.rs", "src/stats/per_client.rs",
+             "src/stats/mod.rs", "src/stats/reporter.rs", "src/version.rs", "src/lib.rs",
+             "src/bin/roughenough-client.rs", "src/bin/roughenough-server.rs"]
+LIT_RE = re.compile(r"(?<![A-Za-z0-9_.])(0x[0-9a-fA-F_]+|\d[\d_]*)(?:_?(?:u8|u16|u32|u64|u128|usize|i8|i16|i32|i64|isize))?(?![A-Za-z0-9_]|\.\d)")
+
+
+def blank_strings(src):
+    """replace string / char literal contents by spaces (keeps offsets)"""
+    out, i, n = list(src), 0, len(src)
+    while i < n:
+        c = src[i]
+        if c == '"':
+            j = i + 1
+            while j < n and src[j] != '"':
+                j += 2 if src[j] == "\\" else 1
+            for k in range(i + 1, min(j, n)):
+                if out[k] != "\n":
+                    out[k] = " "
+            i = j + 1
+        elif c == "'" and i + 2 < n and (src[i + 2] == "'" or (src[i + 1] == "\\" and i + 3 < n and src[i + 3] == "'")):
+            j = i + (3 if src[i + 1] == "\\" else 2)
+            for k in range(i + 1, j):
+                out[k] = " "
+            i = j + 1
+        else:
+            i += 1
+    return "".join(out)
+
+
+def scan_literals(repo):
+    rows = []
+    for rel in LIT_FILES:
+        p = os.path.join(repo, rel)
+        if not os.path.exists(p):
+            continue
+        src = blank_strings(strip_tests_and_comments(open(p).read()))
+        # blank out logging / formatting macro calls and capacity hints: their numbers are not behaviour
+        for m in list(LOG_RE.finditer(src)):
+            body = balanced(src, m.end() - 1)
+            a = m.end(); b = a + len(body)
+            src = src[:a] + re.sub(r"[^\n]", " ", src[a:b]) + src[b:]
+        src = re.sub(r"with_capacity\(\s*\d[\d_]*\s*\)", lambda m: " " * len(m.group(0)), src)
+        per_fn = {}
+        order = []
+        for m in LIT_RE.finditer(src):
+            fn = enclosing_fn(src, m.start())
+            txt = m.group(1).replace("_", "")
+            val = int(txt, 16) if txt.lower().startswith("0x") else int(txt)
+            if fn not in per_fn:
+                per_fn[fn] = []; order.append(fn)
+            per_fn[fn].append(val)
+        for fn in order:
+            rows.append((rel, fn, per_fn[fn]))
+    return rows
+
+
+def render_literals(rows):
+    out = ["(* (file, enclosing fn, integer literals in source order) *)",
+           "Definition num_literals : list (string * string * list N) := ["]
+    out.append(";\n".join("  (%s, %s, [%s]%%N)" % (coq_str(f), coq_str(fn), "; ".join(str(v) for v in vals)) for f, fn, vals in rows))
+    out.append("].\n")
+    return "\n".join(out) + "\n"
+
+
 def coq_str(s):
     s = s.encode("ascii", "replace").decode()
     return '"' + s.replace('"', '""') + '"'
@@ -103,13 +175,16 @@ def render(logs, panics):
 def main():
     repo, dest = sys.argv[1], sys.argv[2]
     logs, panics = scan(repo)
-    text = render(logs, panics)
+    lits = scan_literals(repo)
+    text = render(logs, panics).replace("From Coq Require Import List String.", "From Coq Require Import List String NArith.") + render_literals(lits)
     old = open(dest).read() if os.path.exists(dest) else None
     if old != text:
         os.makedirs(os.path.dirname(os.path.abspath(dest)), exist_ok=True)
         open(dest + ".tmp", "w").write(text)
         os.replace(dest + ".tmp", dest)
         print("Sites.v regenerated (%d log sites, %d panic-capable lines)" % (len(logs), len(panics)))
+    if len(sys.argv) > 3 and sys.argv[3] == "--literals":
+        print(render_literals(lits).replace("num_literals", "reviewed_literals"))
     if len(sys.argv) > 3 and sys.argv[3] == "--sitemap":
         # print a SiteMap skeleton for the current scan (used once, then maintained by hand)
         print(render_sitemap(logs, panics))
